@@ -1749,7 +1749,7 @@ Proof.
   { rewrite run_split. fold s1. destruct (run (init tick start) pre) as [s1' o1] eqn:E1. unfold s1 in *. cbn [fst] in *.
     unfold s2. destruct (step s1' (Register n sp [])) as [s2' x]. cbn [fst]. destruct (run s2' post). reflexivity. }
   rewrite Hs3' in Hnow.
-  rewrite run_snoc in Hf3 |- *.
+  rewrite run_snoc in Hf3, Ev |- *.
   pose proof (run_alone n (nins s1) post s2 I2 Hc5 A2 Hla) as RA.
   pose proof (run_safe post s2 I2 Hc5) as [I3 _].
   destruct (run s2 post) as [s3 o3] eqn:Hr3. cbn [fst snd] in *.
@@ -1779,4 +1779,46 @@ Proof.
     { unfold e1, iv_ms in *. rewrite S2, S3, S5, S7. nia. }
     pose proof MS_pos. nia.
   - destruct H3 as (_ & _ & Hfd). lia.
+Qed.
+
+Theorem repeat_exactly_N tick start pre n a i N post T :
+  0 < tick -> 0 <= start ->
+  close_ok false (pre ++ Register n (SRepeat a i N) [] :: post ++ [Advance T]) ->
+  fuel_ok (snd (run (init tick start) (pre ++ Register n (SRepeat a i N) [] :: post ++ [Advance T]))) ->
+  has_close pre = false -> Forall (leaves_alone n) post -> 0 < N ->
+  let s1 := fst (run (init tick start) pre) in
+  s_now (fst (run (init tick start) (pre ++ Register n (SRepeat a i N) [] :: post))) < T ->
+  (to_ms (s_now s1 + clampd a tick) + (N - 1) * Z.quot (clampd i tick) MS) * MS <= T ->
+  count_ev (nins s1)
+    (all_events (snd (run (init tick start) (pre ++ Register n (SRepeat a i N) [] :: post ++ [Advance T])))) = N.
+Proof.
+  intros Ht Hs Hc Hf Hnc Hla HN s1 Hnow Hdue.
+  destruct (frame tick start pre _ (post ++ [Advance T]) Ht Hs Hc Hf) as (T1 & _). cbv zeta in T1. fold s1 in T1.
+  assert (Htk : s_tick s1 = tick) by (rewrite (tr_tick _ _ _ _ T1); reflexivity).
+  pose proof (new_task_static_fields s1 n (SRepeat a i N) []) as NF. cbn [spec_params] in NF.
+  destruct NF as (_ & Hcr & Htt & Hreg & Haf & Hiv).
+  pose proof (left_alone_completes tick start pre n (SRepeat a i N) post T Ht Hs Hc Hf Hnc Hla) as L. cbv zeta in L.
+  fold s1 in L. rewrite Htt in L. apply L; auto.
+  unfold e1, iv_ms. rewrite Hreg, Haf, Hiv, Htk. exact Hdue.
+Qed.
+
+Theorem oneshot_exactly_once tick start pre n a post T :
+  0 < tick -> 0 <= start ->
+  close_ok false (pre ++ Register n (SAfter a) [] :: post ++ [Advance T]) ->
+  fuel_ok (snd (run (init tick start) (pre ++ Register n (SAfter a) [] :: post ++ [Advance T]))) ->
+  has_close pre = false -> Forall (leaves_alone n) post ->
+  let s1 := fst (run (init tick start) pre) in
+  s_now (fst (run (init tick start) (pre ++ Register n (SAfter a) [] :: post))) < T ->
+  to_ms (s_now s1 + clampd a tick) * MS <= T ->
+  count_ev (nins s1)
+    (all_events (snd (run (init tick start) (pre ++ Register n (SAfter a) [] :: post ++ [Advance T])))) = 1.
+Proof.
+  intros Ht Hs Hc Hf Hnc Hla s1 Hnow Hdue.
+  destruct (frame tick start pre _ (post ++ [Advance T]) Ht Hs Hc Hf) as (T1 & _). cbv zeta in T1. fold s1 in T1.
+  assert (Htk : s_tick s1 = tick) by (rewrite (tr_tick _ _ _ _ T1); reflexivity).
+  pose proof (new_task_static_fields s1 n (SAfter a) []) as NF. cbn [spec_params] in NF.
+  destruct NF as (_ & Hcr & Htt & Hreg & Haf & Hiv).
+  pose proof (left_alone_completes tick start pre n (SAfter a) post T Ht Hs Hc Hf Hnc Hla) as L. cbv zeta in L.
+  fold s1 in L. rewrite Htt in L. apply L; auto; try lia.
+  unfold e1, iv_ms. rewrite Hreg, Haf, Htk. unfold clamp, clampd in *. lia.
 Qed.
